@@ -7,7 +7,7 @@ REGISTRY = {
     'C03': ('sim.machines.store_geo', 'GeoStoreMachine', 64, 4000, 300000),
     'C05': ('sim.machines.listing', 'TableMachine', 32, 2000, 60000),
     'C06': ('sim.machines.listing', 'HistoryMachine', 64, 4000, 200000),
-    'C07': ('sim.machines.listing', 'NavMachine', 64, 3000, 100000),
+    'C07': ('sim.machines.listing', 'NavMachine', 64, 2000, 100000),
     'C08': ('sim.machines.edit_grid', 'GridMachine', 64, 8000, 300000),
     'C09': ('sim.machines.edit_grid', 'GridPhysicsMachine', 64, 6000, 300000),
     'C10': ('sim.machines.edit_geo', 'GeoMachine', 64, 2400, 80000),
